@@ -32,11 +32,15 @@ impl Command for CommandImpl {
     }
 
     fn run(&self, context: CommandInvocationContext) -> CommandResult {
-        let all_vars = env::vars();
+        // (env::vars panics for a name or value which is not valid unicode)
+        let all_vars = env::vars_os();
         let mut map = HashMap::new();
 
         for (var_key, var_value) in all_vars {
-            map.insert(var_key, StateValue::String(var_value.to_string()));
+            map.insert(
+                var_key.to_string_lossy().into_owned(),
+                StateValue::String(var_value.to_string_lossy().into_owned()),
+            );
         }
 
         let key = put_handle(context.state, StateValue::SubState(map));
